@@ -8,6 +8,7 @@ proof : props/C16.v  (threaded == serial for every interleaving, every k >= 1, e
 """
 import ast
 import itertools
+import math
 import threading
 
 import numpy as np
@@ -340,17 +341,19 @@ def _interleavings(ctx):
         chunks = [[pairs[x] for x in ch] for ch in model_chunks(len(pairs), k)]
         # all interleavings = all sequences of worker numbers with the right multiplicities
         base = [w for w, ch in enumerate(chunks) for _ in ch]
-        allsched = sorted(set(itertools.permutations(base))) if len(base) <= 7 else None
+        total = math.factorial(len(base))
+        for ch in chunks:
+            total //= math.factorial(len(ch))
         limit = ctx.n(40, 400)
-        if allsched is None or len(allsched) > limit:
+        if total <= limit:
+            scheds, exhaustive = sorted(_multiset_perms(base)), True
+        else:
             scheds = set()
             while len(scheds) < limit:
-                s = base[:]
-                rng.shuffle(s)
-                scheds.add(tuple(s))
+                s_ = base[:]
+                rng.shuffle(s_)
+                scheds.add(tuple(s_))
             scheds, exhaustive = sorted(scheds), False
-        else:
-            scheds, exhaustive = allsched, True
         ctx.extra.setdefault('interleavings', []).append({'Nu': Nu, 'Nv': Nv, 'k': k, 'schedules': len(scheds), 'exhaustive': exhaustive})
         dead = 0
         for sc in scheds:
@@ -384,6 +387,28 @@ Definition trace (c : nat * nat * nat * list nat) : option (list (nat * nat)) :=
     if 'gen/C16Gen.v' in ''.join(ctx.checker_cmds) and not any(b['kind'] == 'translator' for b in ctx.broken):
         ctx.corr('schedules', 'Require Import Model.Threads Gen.C16Gen.\nFrom Coq Require Import List Arith Bool.',
                  'trace', '(option_eqb (list_eqb pair_eqb))', sched_cases, defs=defs)
+
+
+def _multiset_perms(items):
+    """all distinct orderings of a multiset"""
+    from collections import Counter
+    cnt = Counter(items)
+    n = len(items)
+    out = []
+
+    def rec(prefix):
+        if len(prefix) == n:
+            out.append(tuple(prefix))
+            return
+        for k in sorted(cnt):
+            if cnt[k] > 0:
+                cnt[k] -= 1
+                prefix.append(k)
+                rec(prefix)
+                prefix.pop()
+                cnt[k] += 1
+    rec([])
+    return out
 
 
 def _run_turnstile(u, v, Nu, Nv, k, order):
